@@ -668,6 +668,12 @@ func (r *runner) asyncStart(a *AsyncReq) {
 		sr := simenv.SearchReq{Aggs: []simenv.AggReq{ag}}
 		req.Aggs = append(req.Aggs, sr.Proto().Aggs[0])
 	}
+	// "the fractions that existed when it was started"
+	r.asyncBase[a.ID] = len(r.bulkOrder)
+	r.asyncFracs[a.ID] = map[string]bool{}
+	for _, f := range r.st.Fracs() {
+		r.asyncFracs[a.ID][f.Name] = true
+	}
 	var rerr error
 	api := r.st.API
 	status := r.st.Call(opTimeout, func() { _, rerr = api.StartAsyncSearch(context.Background(), req) })
@@ -727,19 +733,77 @@ func (r *runner) asyncWait(a *AsyncReq) {
 		}
 		r.s.SleepSim(200 * time.Millisecond)
 	}
-	// expected: the synchronous answer over the same (unchanged) data = the model
-	acked := model.NewCorpus()
-	for _, bn := range r.bulkOrder {
-		if b := r.bulks[bn]; b.status == "acked" {
+	// expected: the synchronous answer over the fractions that existed when the search was started.
+	// Documents submitted before the start (all acknowledged and indexed then) must be there. A document
+	// submitted later may be part of the answer only if it went into a fraction that existed at the
+	// start (the active one of that moment); one that sits in a fraction created later must not.
+	acked, base := model.NewCorpus(), model.NewCorpus()
+	late := map[model.ID]bool{}
+	allAcked := true
+	for i, bn := range r.bulkOrder {
+		b := r.bulks[bn]
+		if b.status == "acked" {
 			for _, d := range b.docs {
 				acked.Add(d)
+			}
+		} else {
+			allAcked = false
+		}
+		for _, d := range b.docs {
+			if i < r.asyncBase[a.ID] {
+				if b.status == "acked" {
+					base.Add(d)
+				}
+			} else {
+				late[d.ID()] = true
 			}
 		}
 	}
 	got := simenv.DecodeSearch(resp.Response)
 	s := *a.S
 	s.Size = math.MaxInt32
-	want := acked.Matching(s.Q, s.From, s.To, s.Desc)
+	var lateHits []model.ID
+	for _, h := range got.Hits {
+		if late[mid(h.ID)] {
+			lateHits = append(lateHits, mid(h.ID))
+		}
+	}
+	if len(lateHits) > 0 {
+		// where do they live? (a synchronous listing names the fraction of every hit)
+		ls := s
+		ls.Size = 100000
+		ls.Interval, ls.Aggs, ls.WithTotal = 0, nil, false
+		lres, status, err := r.st.Search(opTimeout, toReq(&ls))
+		if status == "dead" {
+			r.checkUnplannedDeath()
+			return
+		}
+		if status != "done" || err != nil {
+			r.violate("api_error", "listing search after asynchronous search failed: %v %v", status, err)
+			return
+		}
+		where := map[model.ID]string{}
+		for _, h := range lres.Hits {
+			where[mid(h.ID)] = h.Hint
+		}
+		for _, id := range lateHits {
+			f, ok := where[id]
+			if !ok {
+				r.violate("async_result", "asynchronous search %s %q lists %s, which the synchronous search does not find", a.ID, s.Q.SeqQL(), id)
+				return
+			}
+			if !r.asyncFracs[a.ID][f] {
+				r.violate("async_result", "asynchronous search %s %q lists %s of fraction %s, which was created after the search was started (fractions at start: %v)", a.ID, s.Q.SeqQL(), id, f, sortedKeys(r.asyncFracs[a.ID]))
+				return
+			}
+			base.Add(r.issued[id])
+		}
+		r.s.Probe("async_late_doc_in_old_fraction")
+	}
+	if len(late) > 0 {
+		r.s.Probe("async_with_late_ingestion")
+	}
+	want := base.Matching(s.Q, s.From, s.To, s.Desc)
 	if len(got.Hits) != len(want) {
 		r.violate("async_result", "asynchronous search %q returned %d ids, synchronous/model answer has %d", s.Q.SeqQL(), len(got.Hits), len(want))
 		return
@@ -776,9 +840,27 @@ func (r *runner) asyncWait(a *AsyncReq) {
 			return
 		}
 	}
-	// and the synchronous search itself
-	s.Size = 100000
-	s.WithTotal = true
-	r.compareSearch("sync-vs-async", &s, acked)
+	// and the synchronous search itself (over everything that is stored by now)
+	if allAcked {
+		// (bulks acknowledged after the start may still be on their way through the index workers)
+		if res := r.st.WaitIdle(opTimeout); res == "timeout" {
+			r.violate("hang", "WaitIdle did not finish\n%s", r.s.DumpTasks())
+			return
+		} else if res != "done" {
+			return
+		}
+		s.Size = 100000
+		s.WithTotal = true
+		r.compareSearch("sync-vs-async", &s, acked)
+	}
 	r.logf("async %s done and equal: %d ids", a.ID, len(want))
+}
+
+func sortedKeys(m map[string]bool) []string {
+	out := make([]string, 0, len(m))
+	for k := range m {
+		out = append(out, k)
+	}
+	sort.Strings(out)
+	return out
 }
